@@ -68,6 +68,7 @@ class SceneSpec:
     pointclouds: Optional[List[np.ndarray]] = None  # per sample (N,4) arrays written as .pcd.bin
     raw_files: bool = False  # also write a (tiny) raw file for every non-lidar sensor, so that load_raw_data=True works
     sensor_ego_offset: Optional[Tuple[float, float, float]] = None  # non-lidar sensors captured at a slightly other ego pose
+    record_stamp_offset_us: int = 0  # sensor records stamped this much before their sample (sweep start vs key-frame time)
 
 
 def tok(kind: str, i: Any) -> str:
@@ -171,7 +172,7 @@ def write_dataset(root: str, spec: SceneSpec, tables: Optional[Dict[str, list]] 
                     "sample_token": tok("sample", k),
                     "ego_pose_token": ego_tok,
                     "calibrated_sensor_token": tok("cs", ch),
-                    "timestamp": int(s.t),
+                    "timestamp": int(s.t) - int(spec.record_stamp_offset_us),
                     "fileformat": "pcd" if mod == "lidar" else "jpg",
                     "is_key_frame": True,
                     "height": 0,
